@@ -35,7 +35,7 @@ def check(run, repo, tier):
   r2_cleanup_loop(run, w)
   r3_registration(run, w)
   from ._extra import c10_updates_unfiltered
-  c10_updates_unfiltered(run, w, "C10-R2")
+  run.guard(c10_updates_unfiltered, run, w, "C10-R2")
 
 
 # ------------------------------------------------------------------------------------------ R2
